@@ -678,7 +678,7 @@ func genPoolCases(c *Ctx) []json.RawMessage {
 }
 
 func checkC09(c *Ctx) {
-	c.rule = "MC: the grow-and-park / release / flush life-cycle of reader, bytes reader, writer, bytes writer and ReaderSkipDecoder, composed with a co-tenant over 3 pool buffers, keeps the ownership invariants under every interleaving (9 steps). APALACHE: the invariants plus a strengthening (Ind_BufPool.tla) are inductive for every kind, 4 buffers, runs of any length (base, step, negative control, probes). TLAPS: Proof_BufPool.tla proves MCSpec => []IndInv for an arbitrary set of pool buffers (41 obligations; a negative control must fail). TRACE: real histories over the instrumented pool double (registry, poison-on-free, foreign/double-free detection) that retain every handed-out slice across later operations, with the co-tenant draining and scribbling every size class between operations, and a second live reader growing / releasing on its own schedule next to the one under test; every pool event must be an enabled BufPool action (P1..P5) and every content/caller-memory/disjointness monitor event must be ok. Also multi-MiB buffers: bytes readers over 1 / 16 / 16+ / 32 MiB of caller memory and stream readers grown that far, consumed up to a tail of 0..70000 bytes and released; writers with regions and targets of that size. Histories that end without a Release (the reader is dropped; GC and finalizers run; slices are compared again) and decoder histories of three lives of the pooled object with values of 1..17 MiB."
+	c.rule = "MC: the grow-and-park / release / flush life-cycle of reader, bytes reader, writer, bytes writer and ReaderSkipDecoder, composed with a co-tenant over 3 pool buffers, keeps the ownership invariants under every interleaving (9 steps). APALACHE: the invariants plus a strengthening (Ind_BufPool.tla) are inductive for every kind, 4 buffers, runs of any length (base, step, negative control, probes). TLAPS: Proof_BufPool.tla proves MCSpec => []IndInv for an arbitrary set of pool buffers (41 obligations; a negative control must fail). TRACE: real histories over the instrumented pool double (registry, poison-on-free, foreign/double-free detection) that retain every handed-out slice across later operations, with the co-tenant draining and scribbling every size class between operations, and a second live reader growing / releasing on its own schedule next to the one under test; every pool event must be an enabled BufPool action (P1..P5) and every content/caller-memory/disjointness monitor event must be ok. Also multi-MiB buffers: bytes readers over 1 / 16 / 16+ / 32 MiB of caller memory and stream readers grown that far, consumed up to a tail of 0..70000 bytes and released; writers with regions and targets of that size. Histories that end without a Release (the reader is dropped; GC and finalizers run; slices are compared again) and decoder histories of three lives of the pooled object with values of 1..17 MiB. What a Flush left in a BytesWriter target is retained and re-compared after every later Flush."
 	for _, k := range []string{"reader", "bytesreader", "writer", "byteswriter", "decoder"} {
 		c.MC("MC_BufPool.tla", "MC_BufPool_"+k+".cfg", 4)
 	}
